@@ -24,17 +24,18 @@ RowOfN(nd) == Row(nd.args.h)
 
 (* ---------------------------------- C12 ---------------------------------- *)
 C12OwnerOnly(nd)   == nd.a = "Own" => OwnerOnly(Row(nd.args.msg), nd.args.holder, nd.args.signer, nd.res.ok)
-C12Victim(nd)      == nd.a = "Own" => VictimUntouched(nd.args.holder, nd.args.signer, nd.st.vpre, nd.st.vpost)
-C12Rejected(nd)    == nd.a \in {"Own", "Priv", "Kill"} => RejectedChangesNothing(nd.res.ok, nd.st.pre, nd.st.post)
+C12Victim(nd)      == /\ nd.a = "Own" => VictimUntouched(nd.args.holder, nd.args.signer, nd.st.vpre, nd.st.vpost)
+                      /\ nd.a = "Open" => OpenVictimsUntouched(nd.st.vpre, nd.st.vpost)
+C12Rejected(nd)    == nd.a \in {"Own", "Open", "Priv", "Kill"} => RejectedChangesNothing(nd.res.ok, nd.st.pre, nd.st.post)
 C12Privileged(nd)  == nd.a = "Priv" => PrivilegedOnlyDesignated(nd.args.chain, nd.args.sender, nd.res.ok)
 C12PrivRole(nd)    == nd.a = "Priv" => PrivilegedRole(nd.args.v, nd.args.chain, nd.args.sender, nd.res.ok)
 C12PrivElse(nd)    == nd.a = "Priv" => PrivilegedElsewhere(nd.args.chain, nd.args.sender, nd.res.ok)
-C12Kill(nd)        == nd.a = "Kill" => KillOnlyAdmin(nd.args.sender, nd.res.ok)
+C12Kill(nd)        == nd.a = "Kill" => KillOnlyAdmin(nd.args.adm, nd.args.sender, nd.res.ok)
 
 ConfOwner(nd) == nd.a = "Own" /\ RefOk(nd) /\ OwnerPredicted(Row(nd.args.msg), nd.args.holder, nd.args.signer, nd.args.amt, nd.args.scope) =>
                    nd.res.ok = OwnerStep(Pos0(nd.args.holder), Row(nd.args.msg), nd.args.signer, TRUE).ok
 ConfPriv(nd)  == nd.a = "Priv" /\ RefOk(nd) => nd.res.ok = ImplPrivOk(nd.args.v, nd.args.chain, nd.args.sender)
-ConfKill(nd)  == nd.a = "Kill" => nd.res.ok = ImplKillOk(nd.args.sender)
+ConfKill(nd)  == nd.a = "Kill" => nd.res.ok = ImplKillOk(nd.args.adm, nd.args.sender)
 ConfCatalogue(nd) == nd.a = "Catalogue" => Range(nd.st.ids) = Ids
 
 (* ---------------------------------- C14 ---------------------------------- *)
@@ -107,8 +108,15 @@ OwnOwnerOk(nd)   == nd.a = "Own" /\ nd.args.signer = nd.args.holder /\ nd.res.ok
 PrivGuarded(nd)  == nd.a = "Priv" /\ nd.args.chain \in MainTest /\ RefOk(nd)
 PrivAccepted(nd) == nd.a = "Priv" /\ nd.args.chain \in MainTest /\ nd.res.ok /\ ~Same(nd)
 PrivElse(nd)     == nd.a = "Priv" /\ nd.args.chain \notin MainTest /\ nd.args.sender # "admin" /\ RefOk(nd)
-KillRej(nd)      == nd.a = "Kill" /\ ~nd.res.ok
+KillRej(nd)      == nd.a = "Kill" /\ nd.args.sender \notin ConfiguredAdmins(nd.args.adm)     \* attempts by a non-admin (defined on the cell, not on the outcome)
 KillAcc(nd)      == nd.a = "Kill" /\ nd.res.ok
+OpenOk(nd)       == nd.a = "Open" /\ nd.res.ok /\ ~Same(nd)
+OpenHoleOk(nd)   == OpenOk(nd) /\ nd.args.hole /\ nd.st.holed        \* an older position of that kind really was removed first
+OpenWitnessed == {Nd(i).args.msg : i \in {j \in 1..NLog : OpenHoleOk(Nd(j))}}
+HoleyState(nd)   == nd.a = "State" /\ nd.args.k < 0
+KillRotatedAcc(nd) == nd.a = "Kill" /\ nd.args.adm = "rotated" /\ nd.res.ok          \* the rotation really took effect
+KillEmptyRej(nd) == nd.a = "Kill" /\ nd.args.adm = "empty"                                  \* attempts while no admin is configured
+PrivPayload(nd)  == nd.a = "Priv" /\ nd.args.chain \in MainTest /\ nd.args.pay = "designated" /\ nd.args.sender # nd.args.des /\ RefOk(nd)
 CtlBreaker(nd)   == nd.a = "Ctl" /\ BreakerReq(RowOfN(nd), CtlOfN(nd)) /\ RefOk(nd)
 CtlShutdown(nd)  == nd.a = "Ctl" /\ ShutdownReq(RowOfN(nd), CtlOfN(nd)) /\ RefOk(nd)
 CtlCoolOff(nd)   == nd.a = "Ctl" /\ CoolOffReq(RowOfN(nd), CtlOfN(nd)) /\ RefOk(nd)
@@ -117,11 +125,13 @@ CtlPrice(nd)     == nd.a = "Ctl" /\ PriceReq(RowOfN(nd), nd.args.prod, CtlOfN(nd
 CtlNoSnapshot(nd)   == nd.a = "Ctl" /\ nd.args.esm \in NoSnapshot /\ ShutdownReq(RowOfN(nd), CtlOfN(nd)) /\ RefOk(nd)
 CtlPriceInactive(nd) == CtlPrice(nd) /\ nd.args.pm = "inactive"
 CtlPriceMissingM(nd) == CtlPrice(nd) /\ nd.args.pm = "missing"
+CtlCross(nd)     == CtlPrice(nd) /\ nd.args.prod = "cross"        \* needed price of a cross-pool position off, same message succeeds with prices on
 CtlRefOk(nd)     == nd.a = "Ctl" /\ nd.args.ref = nd.id /\ nd.res.ok
 CtlRef(nd)       == nd.a = "Ctl" /\ nd.args.ref = nd.id
 CtlFree(nd)      == nd.a = "Ctl" /\ ~MustReject(RowOfN(nd), nd.args.prod, CtlOfN(nd)) /\ nd.res.ok
 HookBreaker(nd)  == nd.a = "Hook" /\ nd.args.breaker /\ nd.args.ref > 0 /\ HookActed(Log[nd.args.ref])
 HookPrice(nd)    == nd.a = "Hook" /\ HookPriceReq(nd.args.hook, HookCtl(nd)) /\ ~nd.args.breaker /\ nd.args.ref > 0 /\ HookActed(Log[nd.args.ref])
+HookPeerBusy(nd) == nd.a = "Hook" /\ nd.args.breaker /\ nd.st.peerNew > 0     \* controlled app idle-checked while the other app of the same loop was processed
 HookRefActs(nd)  == nd.a = "Hook" /\ nd.args.ref = nd.id /\ HookActed(nd)
 HookRef(nd)      == nd.a = "Hook" /\ nd.args.ref = nd.id
 IsState(nd)      == nd.a = "State"
@@ -143,12 +153,14 @@ Stats == PrintT(<<"STATS", [nodes |-> NLog, states |-> Cnt(IsState), own |-> Cnt
            ownForeign |-> Cnt(OwnForeign), ownSignerKeyed |-> Cnt(OwnSignerKeyed), ownOwnerOk |-> Cnt(OwnOwnerOk),
            ownForeignWhole |-> Cnt(OwnForeignWhole), ownForeignOver |-> Cnt(OwnForeignOver), ownOtherScope |-> Cnt(OwnOtherScope),
            ownScopeWitness |-> Cnt(OwnScopeWitness), ctlNoSnapshot |-> Cnt(CtlNoSnapshot),
-           ctlPriceInactive |-> Cnt(CtlPriceInactive), ctlPriceMissing |-> Cnt(CtlPriceMissingM),
+           ctlPriceInactive |-> Cnt(CtlPriceInactive), ctlCrossPool |-> Cnt(CtlCross), ctlPriceMissing |-> Cnt(CtlPriceMissingM),
            privGuarded |-> Cnt(PrivGuarded), privAccepted |-> Cnt(PrivAccepted), privElsewhere |-> Cnt(PrivElse),
-           killRejected |-> Cnt(KillRej), killAccepted |-> Cnt(KillAcc),
+           openOk |-> Cnt(OpenOk), openAfterHole |-> Cnt(OpenHoleOk), openMsgs |-> Cardinality(OpenMsgs), openMsgsWitnessed |-> Cardinality(OpenWitnessed),
+           holeyStates |-> Cnt(HoleyState), killForeign |-> Cnt(KillRej), killAccepted |-> Cnt(KillAcc), killRotatedAccepted |-> Cnt(KillRotatedAcc),
+           killEmptyList |-> Cnt(KillEmptyRej), privPayloadNamesDesignated |-> Cnt(PrivPayload),
            ctlBreaker |-> Cnt(CtlBreaker), ctlShutdown |-> Cnt(CtlShutdown), ctlCoolOff |-> Cnt(CtlCoolOff),
            ctlCoolWitness |-> Cnt(CtlCoolWitness), ctlPrice |-> Cnt(CtlPrice), ctlRef |-> Cnt(CtlRef), ctlRefOk |-> Cnt(CtlRefOk),
-           ctlFreeOk |-> Cnt(CtlFree), hookBreaker |-> Cnt(HookBreaker), hookPrice |-> Cnt(HookPrice), hookRef |-> Cnt(HookRef), hookRefActs |-> Cnt(HookRefActs),
+           ctlFreeOk |-> Cnt(CtlFree), hookBreaker |-> Cnt(HookBreaker), hookPeerBusy |-> Cnt(HookPeerBusy), hookPrice |-> Cnt(HookPrice), hookRef |-> Cnt(HookRef), hookRefActs |-> Cnt(HookRefActs),
            noteOkNoEffect |-> Cnt(OkNoEffect), noteRejectedAfterWrites |-> Cnt(RejectedDirty),
            aucPrice |-> Cnt(AucPrice), aucRefMoved |-> Cnt(AucRefMoved),
            aucSteps |-> Cardinality(AuctionSteps), aucStepsWitnessed |-> Cardinality(AucWitnessed),
